@@ -10,10 +10,10 @@ other test is unconstrained.
 
 import ast
 
-from ..model import (walk, dotted, call_name, kwarg, unparse, short, UNKNOWN,
-                     root_name, AnalysisError, calls_in, stores_in_target)
+from ..model import (walk, dotted, call_name, kwarg, unparse, short,
+                     root_name, AnalysisError, calls_in)
 from ..cfg import cfg_of
-from ..flow import Deps, guards, const_compare
+from ..flow import guards, const_compare
 from .. import idioms as I
 
 HELPER = 'utils/staging_helper.py'
@@ -1191,7 +1191,7 @@ def r11_7(prog, rep, rid='R11.7'):
 #
 def r11_4s(prog, rep, rid='R11.4s'):
     rep.rule(rid, 'sweep: every method called on a StagingHelper object in the '
-             'package exists in the facade', minimum=12)
+             'package exists in the facade', minimum=15)
     helper = prog.cls(HELPER, 'StagingHelper')
 
     def is_helper_call(mod, v):
@@ -1285,9 +1285,14 @@ _TI = 'tmgr/staging_input/default.py'
 _TO = 'tmgr/staging_output/default.py'
 _H  = 'utils/staging_helper.py'
 
-# proposed repair of F06 (proposed_fixes/F06.diff)
-_FIX06 = (_AI, "            if action not in [rpc.COPY, rpc.LINK, rpc.MOVE, rpc.DOWNLOAD]:",
-               "            if action not in [rpc.COPY, rpc.LINK, rpc.MOVE, rpc.DOWNLOAD,\n                              rpc.TARBALL]:")
+# proposed repair of F06 (proposed_fixes/F06.diff): TARBALL passes the guard,
+# and only the directive which names the tarball itself triggers the untar
+_FIX06 = [
+    (_AI, "            if action not in [rpc.COPY, rpc.LINK, rpc.MOVE, rpc.DOWNLOAD]:",
+          "            if action not in [rpc.COPY, rpc.LINK, rpc.MOVE, rpc.DOWNLOAD,\n                              rpc.TARBALL]:"),
+    (_AI, "            if action == rpc.TARBALL:\n\n                # If somethig was staged",
+          "            if action == rpc.TARBALL:\n\n                if os.path.basename(tgt.path) != '%s.tar' % uid:\n                    self._prof.prof('staging_in_skip', uid=uid, msg=did)\n                    continue\n\n                # If somethig was staged"),
+]
 
 MUTATIONS = [
     dict(name='R11.1 F06 repaired, then MOVE dropped from the agent guard', rules=('R11.1',), edits=[
@@ -1296,8 +1301,7 @@ MUTATIONS = [
     dict(name='R11.1 agent output guard loses LINK', rules=('R11.1',), edits=[
         (_AO, "            if action not in [rpc.COPY, rpc.LINK, rpc.MOVE]:",
               "            if action not in [rpc.COPY, rpc.MOVE]:")]),
-    dict(name='R11.1 F06 repaired, untar branch tests the wrong constant', rules=('R11.1',), edits=[
-        _FIX06,
+    dict(name='R11.1 F06 repaired, untar branch tests the wrong constant', rules=('R11.1',), edits=_FIX06 + [
         (_AI, "            if action == rpc.TARBALL:\n", "            if action == rpc.TRANSFER:\n")],
          note='TARBALL directives then reach handle_staging_directive, which refuses them'),
     dict(name='R11.1 helper no longer accepts DOWNLOAD', rules=('R11.1',), edits=[
@@ -1358,6 +1362,7 @@ MUTATIONS = [
 ]
 
 SILENT = [
+    dict(name='F06 repaired (proposed_fixes/F06.diff)', edits=_FIX06),
     dict(name='F06 repaired with the guard in `not (.. in ..)` form', edits=[
         (_AI, "            if action not in [rpc.COPY, rpc.LINK, rpc.MOVE, rpc.DOWNLOAD]:",
               "            if not (action in [rpc.COPY, rpc.LINK, rpc.MOVE, rpc.DOWNLOAD,\n                               rpc.TARBALL]):")]),
@@ -1379,8 +1384,7 @@ SILENT = [
     dict(name='skip on failure as nested ifs', edits=[
         (_AO, "                if task['target_state'] != rps.DONE \\\n                        and not task['description'].get('stage_on_error'):\n                    task['state'] = task['target_state']\n                    self._log.debug('task %s skips staging: %s', uid, task['state'])\n                    no_staging_tasks.append(task)\n                    continue\n",
               "                if task['target_state'] != rps.DONE:\n                    if not task['description'].get('stage_on_error'):\n                        task['state'] = task['target_state']\n                        no_staging_tasks.append(task)\n                        continue\n")]),
-    dict(name='untar moved into a method of the stager (F06 repaired)', edits=[
-        _FIX06,
+    dict(name='untar moved into a method of the stager (F06 repaired)', edits=_FIX06 + [
         (_AI, "                tar = tarfile.open(tarball)\n                tar.extractall(path='/')\n                tar.close()\n",
               "                self._untar(tarball)\n"),
         (_AI, "    # --------------------------------------------------------------------------\n    #\n    def _handle_task_staging(self, task, actionables):\n",
